@@ -82,7 +82,30 @@ end ConstSt
 
 namespace SimpleSt
 
-/-- the `while (true)` loop of `fireParameterChanged` (cpp:206-216) -/
+/-- `std::numeric_limits<double>::min()` = 2^-1022 -/
+def dblMin : α := Scalar.ofRat 1 44942328371557897693232629769725618340449424473557664318357520289433168951375240783177119330601884005280028469967848339414697442203604155623211857659868531094441973356216371319075554900311523529863270738021251442209537670585615720368478277635206809290837627671146574559986811484619929076208839082406056034304
+
+/-- the separation step of `fireParameterChanged` (repaired): the precision, at least four spacings
+of the doubles around the value, and never zero -/
+def sepStep (prec v : α) : α :=
+  let s := Scalar.max prec (Gen.simpleSepFactor * dblEpsilon * Scalar.abs v)
+  if !(Scalar.gtb s Scalar.zero) then dblMin else s
+
+/-- the `while (true)` loop of `fireParameterChanged` (repaired): the first free position inside the
+domain at `v ± j·step`; when the domain has no room on either side (`exhausted`), the first free
+position whatever the domain -/
+def findFree (prec step lo hi v : α) (m : TMap α) : Nat → Int → Option α
+  | 0, _ => none
+  | fuel + 1, j =>
+    let up := v + Scalar.ofInt j * step
+    let dn := v - Scalar.ofInt j * step
+    let exhausted := !(Scalar.ltb up hi) && !(Scalar.gtb dn lo)
+    if (Scalar.ltb up hi || exhausted) && (TMap.find? prec up m).isNone then some up else
+    if (Scalar.gtb dn lo || exhausted) && (TMap.find? prec dn m).isNone then some dn else
+    findFree prec step lo hi v m fuel (j + 1)
+
+namespace Legacy
+/-- the loop as found (before fix 4f99792): steps of `j * precision()`, only inside the domain -/
 def findFree (prec lo hi v : α) (m : TMap α) : Nat → Int → Option α
   | 0, _ => none
   | fuel + 1, j =>
@@ -91,6 +114,7 @@ def findFree (prec lo hi v : α) (m : TMap α) : Nat → Int → Option α
     let dn := v - Scalar.ofInt j * prec
     if Scalar.gtb dn lo && (TMap.find? prec dn m).isNone then some dn else
     findFree prec lo hi v m fuel (j + 1)
+end Legacy
 
 /-- `fireParameterChanged` (cpp:193-233): rebuild the map from the parameters -/
 def rebuild (s : SimpleSt α) : Except Err (SimpleSt α) :=
@@ -99,7 +123,7 @@ def rebuild (s : SimpleSt α) : Except Err (SimpleSt α) :=
     | [], m => some m
     | (v, p) :: rest, m =>
       if (TMap.find? s.dd.prec v m).isSome then
-        match findFree s.dd.prec s.dd.dom.lo s.dd.dom.hi v m (searchFuel m) 1 with
+        match findFree s.dd.prec (sepStep s.dd.prec v) s.dd.dom.lo s.dd.dom.hi v m (searchFuel m) 1 with
         | some v2 => go rest (TMap.assign s.dd.prec v2 p m)
         | none => none
       else go rest (TMap.assign s.dd.prec v p m)
